@@ -516,6 +516,13 @@ class BaseRepository(ABC):
                         if not self._metadata_file_allowed(metadata, path):
                             continue
 
+                        # Hash value is used as a by-hash file name
+                        if not file[hash_type.value].isalnum():
+                            self._log.warning(
+                                f"Skipping unsafe hash value for path: {path}"
+                            )
+                            continue
+
                         hash_sum = HashSum(type=hash_type, hash=file[hash_type.value])
 
                         repository_path = release_file_relative_path.parent / path
